@@ -409,6 +409,8 @@ func (s *sim) applyByz(op simcore.Op) bool {
 		}
 		if err := rs.Votes.SetPeerMaj23(int32(op.Int("r")), typ, peerID(b.idx), bid); err != nil {
 			s.env.Count("probe.maj23_claim_rejected")
+		} else {
+			s.mon.onMaj23Claim(n, op.Int64("h"), int32(op.Int("r")), op.Int("t"), bid)
 		}
 		s.env.Count("fault.byz_maj23_claim")
 		return true
